@@ -195,6 +195,7 @@ func cmdCheck(args []string) int {
 	var samples []map[string]interface{}
 	var violLines []string
 	knownSeen := map[string]bool{}
+	knownNames := []string{}
 	report := func(o *Obligation, rr ReplayResult) {
 		nViol++
 		suffix := ""
@@ -234,6 +235,7 @@ func cmdCheck(args []string) int {
 		}
 		if kf, isKnown := knownBy[o.Name]; isKnown {
 			nKnown++
+			knownNames = append(knownNames, o.Name)
 			knownSeen[o.Name] = true
 			fmt.Printf("KNOWN-FINDING: property=%s %s: %s\n", id, o.Name, kf.What)
 			continue
@@ -299,26 +301,30 @@ func cmdCheck(args []string) int {
 		"violations":  nViol,
 		"assumptions": assumptions,
 		"coverage": map[string]interface{}{
-			"obligations":     len(all),
+			"obligations":     len(all) - nKnown,
 			"discharged":      nDis,
 			"known_findings":  nKnown,
+			"known_finding_obligations": knownNames,
 			"bounded":         0,
-			"checker_cmd":     fmt.Sprintf("/verif/bin/hvc check %s --tier %s  (VCs from go/ssa of /repo's working tree; solvers z3-new 5.1.0, cvc5 1.0.3, z3 4.8.12 raced per obligation, %ds timeout)", id, timeout),
+			"checker_cmd":     fmt.Sprintf("/verif/bin/hvc check %s --tier %s  (VCs from go/ssa of /repo's working tree; solvers z3-new 5.1.0, cvc5 1.0.3, z3 4.8.12 raced per obligation, %ds timeout)", id, *tier, timeout),
 			"trusted_base":    []string{"hvc VC generator (/verif/engine)", "golang.org/x/tools/go/ssa v0.29.0 as the semantics of Go", "SMT solvers z3 5.1.0 / cvc5 1.0.3 / z3 4.8.12"},
 			"functions":       funcNames,
 			"functions_count": nFuncs,
 			"by_solver":       bySolver,
 			"solver_time_s":   round3(solverTime),
 			"samples":         samples,
-			"explanation":     "every obligation generated from the current source for the functions under contract was sent to the solver portfolio; 'discharged' counts unsat answers (and sat for vacuity guards)",
+			"explanation":     "every obligation generated from the current source for the functions under contract was sent to the solver portfolio; 'discharged' counts unsat answers (and sat for vacuity guards); obligations that fail and are listed in known_findings.json are reported under known_finding_obligations (with a KNOWN-FINDING line) and are not part of 'obligations'",
 		},
 	}
-	if nDis != len(all) {
+	if nDis != len(all)-nKnown {
 		ev["level"] = "other"
 	}
-	_ = os.MkdirAll(filepath.Join(verifDir, "evidence"), 0o755)
-	data, _ := json.MarshalIndent(ev, "", " ")
-	_ = os.WriteFile(filepath.Join(verifDir, "evidence", id+".json"), append(data, '\n'), 0o644)
+	if os.Getenv("HVC_NO_EVIDENCE") == "" {
+		// (runs against deliberately broken trees - seeds, mutants - set HVC_NO_EVIDENCE)
+		_ = os.MkdirAll(filepath.Join(verifDir, "evidence"), 0o755)
+		data, _ := json.MarshalIndent(ev, "", " ")
+		_ = os.WriteFile(filepath.Join(verifDir, "evidence", id+".json"), append(data, '\n'), 0o644)
+	}
 	fmt.Printf("hvc: property %s: %d functions under contract, %d obligations, %d discharged, %d known findings, %d violations (%.1fs)\n",
 		id, nFuncs, len(all), nDis, nKnown, nViol, time.Since(start).Seconds())
 	for _, l := range violLines {
